@@ -81,6 +81,22 @@ impl XsdDateTime {
     }
 }
 
+impl XsdDateTime {
+    /// A total order consistent with `partial_cmp` wherever the latter is defined:
+    /// a dateTime without timezone is compared as if it was in UTC
+    /// (which is in the middle of its range of uncertainty),
+    /// and comes before the dateTimes with a timezone denoting the same instant.
+    pub fn total_cmp(&self, other: &Self) -> Ordering {
+        fn key(d: &XsdDateTime) -> (NaiveDateTime, bool) {
+            match d {
+                XsdDateTime::Naive(d) => (*d, false),
+                XsdDateTime::Timezoned(d) => (d.naive_utc(), true),
+            }
+        }
+        key(self).cmp(&key(other))
+    }
+}
+
 impl FromStr for XsdDateTime {
     type Err = &'static str;
 
